@@ -34,6 +34,7 @@ type scenario struct {
 	Observers   int     `json:"observers"`
 	Acquire     string  `json:"acquire"` // try | lock | timeout
 	DeathOp     int     `json:"death_after_op,omitempty"`
+	Takeover    bool    `json:"holder_acquires_by_stale_takeover,omitempty"` // live cases: the holder takes over a dead predecessor's stale lock (override)
 	Previous    int     `json:"previous_holders"` // idle earlier holders of the same lock id still alive
 	Policy      string  `json:"policy"`
 	AdvanceP    float64 `json:"advance_p"`
@@ -124,9 +125,20 @@ func runScenario(r *vrun.Run, sc scenario, keep bool) *result {
 					_ = w.Call(name, "Unlock", "release", func() (string, error) { return "", pl.Unlock(root) })
 				}
 			}
+			if sc.Takeover {
+				// a predecessor dies holding the lock; the holder under test will acquire by taking the stale lock over
+				dctx, dcancel := context.WithCancel(root)
+				dl := w.NewLock("dead", false)
+				if err := w.Call("dead", "TryLock", "acquire", func() (string, error) { return "", dl.TryLock(dctx) }); err == nil {
+					lockh.Sleep(root, 70*time.Millisecond)
+					w.Die("dead")
+				}
+				dcancel()
+				lockh.Sleep(root, 3*lockh.Period)
+			}
 			hctx, hcancel := context.WithCancel(root)
 			defer hcancel()
-			hl := w.NewLock("holder", false)
+			hl := w.NewLock("holder", sc.Takeover)
 			if sc.Kind == "death" {
 				w.StopAfter("holder", sc.DeathOp, func() {
 					res.mu.Lock()
@@ -280,7 +292,11 @@ func analyse(r *vrun.Run, res *result) {
 	switch sc.Kind {
 	case "live":
 		if !res.holderAcquired {
-			r.Inconclusive("holder did not acquire")
+			why := ""
+			if len(res.notes) > 0 {
+				why = ": " + res.notes[0]
+			}
+			r.Inconclusive(fmt.Sprintf("holder did not acquire (takeover=%v acquire=%s)%s", sc.Takeover, sc.Acquire, why))
 			return
 		}
 		polls := 0
@@ -306,6 +322,9 @@ func analyse(r *vrun.Run, res *result) {
 		}
 		r.Obs("live_hold_periods_total", int64(sc.HoldPeriods))
 		r.ObsSet("hold_lengths", fmt.Sprint(sc.HoldPeriods))
+		if sc.Takeover {
+			r.Obs("live_cases_where_the_holder_took_over_a_stale_lock", 1)
+		}
 		nontrivial = sc.Observers > 0 && polls+len(hist) > 10
 	case "death":
 		if !res.died {
@@ -454,7 +473,7 @@ func main() {
 				n = r.Pick(1, 4)
 			}
 			for k := 0; k < n; k++ {
-				cases = append(cases, scenario{Kind: "live", HoldPeriods: h, Observers: o, Acquire: acq[(k+o)%3], Previous: k % 2, Policy: pols[k%2], AdvanceP: []float64{0.2, 0.5}[k%2], Stream: "live"})
+				cases = append(cases, scenario{Kind: "live", HoldPeriods: h, Observers: o, Acquire: acq[(k+o)%3], Previous: k % 2, Takeover: k%3 == 2, Policy: pols[k%2], AdvanceP: []float64{0.2, 0.5}[k%2], Stream: "live"})
 			}
 		}
 	}
@@ -473,6 +492,12 @@ func main() {
 	}
 	for i := range cases {
 		cases[i].Index = i
+		if cases[i].Takeover && cases[i].Acquire == "timeout" {
+			// LockWithTimeout with stale-lock override cancels itself (its internal ReleaseIfStale -> Unlock cancels every context
+			// registered in the lock's own cancel store, including the one LockWithTimeout has just registered) and returns
+			// 'cancelled': observed on the unchanged tree, outside the statements of C01/C17, recorded in DESIGN §9.
+			cases[i].Acquire = "try"
+		}
 	}
 	vrun.Parallel(len(cases), 0, func(i int) {
 		analyse(r, runScenario(r, cases[i], true))
